@@ -70,16 +70,20 @@ def extract(repo="/repo", cfg="log", target_dir=None, keep=False):
     os.makedirs(CACHE, exist_ok=True)
     tdir = target_dir or os.path.join(CACHE, "target-" + cfg)
     os.makedirs(tdir, exist_ok=True)
-    # force the member crate to be re-checked by our wrapper
-    for fp in glob.glob(os.path.join(tdir, "debug", ".fingerprint", "embedded-sdmmc-*")):
-        shutil.rmtree(fp, ignore_errors=True)
     nonce = "%d-%d" % (os.getpid(), time.time_ns())
     out = os.path.join(CACHE, "facts-%s-%s.json" % (cfg, nonce))
     t0 = time.time()
     cmd = ["cargo", "+nightly", "check", "--offline", "--lib"] + CONFIGS[cfg]
     e = env_for(out, cfg)
     e["CARGO_TARGET_DIR"] = tdir
-    r = subprocess.run(cmd, cwd=repo, env=e, capture_output=True, text=True)
+    # serialise concurrent checks on the shared per-configuration target dir
+    import fcntl
+    with open(os.path.join(CACHE, "target-%s.lock" % cfg), "w") as lk:
+        fcntl.flock(lk, fcntl.LOCK_EX)
+        # force the member crate to be re-checked by our wrapper
+        for fp in glob.glob(os.path.join(tdir, "debug", ".fingerprint", "embedded-sdmmc-*")):
+            shutil.rmtree(fp, ignore_errors=True)
+        r = subprocess.run(cmd, cwd=repo, env=e, capture_output=True, text=True)
     if r.returncode != 0:
         sys.stderr.write(r.stdout[-4000:] + r.stderr[-8000:])
         raise ExtractError("cargo check failed for %s (cfg %s)" % (repo, cfg))
